@@ -48,8 +48,8 @@ class Stop(Control):
     """Harness asked to end the path early (normal)."""
 
 
-class ReplayMismatch(Exception):
-    pass
+class ReplayMismatch(BaseException):
+    """(BaseException so that the library's `except Exception` cannot swallow it during a replay)"""
 
 
 def bitlen(c):
@@ -229,8 +229,8 @@ CTX = None  # current symbolic context
 CONC = None  # current concrete model (dict) in replay mode
 
 
-class ConcreteFailure(Exception):
-    """require() failed in concrete (replay) mode."""
+class ConcreteFailure(BaseException):
+    """require() failed in concrete (replay) mode (BaseException: must not be swallowed by the code under test)."""
 
 
 # ----------------------------------------------------------------------------- booleans
